@@ -3,7 +3,7 @@ from ..dv import NONZERO_STEPS
 from ..stages import estimates
 from fractions import Fraction as Fr
 
-from ..srcmodel import AnalysisError
+from ..srcmodel import AnalysisError, NotAnOffset
 from ..algebra import Poly, Z8
 from .. import ndarr
 from ..ndarr import Arr, InterpRaise
@@ -115,7 +115,16 @@ def run(ctx):
         default_complex = (method == 'complex' and any(c.startswith('n=1/order=2') or c.startswith('n=1/order=1')
                                                        or c.startswith('n=1/order=3') for c in cfgs))
         for dim in dims:
-          res0 = facts.stencil(fn, dim)
+          try:
+              res0 = facts.stencil(fn, dim)
+          except NotAnOffset as exc:
+              # the point handed to f is not x plus something that does not depend on x (a clipped, rounded or rescaled
+              # x): shown by two concrete x.  No clause of the property can hold for such a point at every x
+              rep.check(False, 'R-ADMISSIBLE', dname, where, {'point': str(exc)[:240], 'witness': exc.witness},
+                        'every evaluation point is x + an offset made of the steps only',
+                        '%s/%s/dim=%s (%d configuration classes, e.g. %s)' % (core, method, dim, len(cfgs), cfgs[0]),
+                        key='admissible %s %s' % (core, method))
+              continue
           # every outcome of a branch on the values of f gives its own set of evaluation points: each one is judged
           for alt_text, res in [('', res0)] + list(res0.alternatives):
             label = '%s/%s/dim=%s (%d configuration classes, e.g. %s)%s' % (core, method, dim, len(cfgs), cfgs[0],
@@ -212,6 +221,11 @@ def evalsites(ctx):
             label = '%s/%s/n=%s/full_output=%s' % (cls, method, n, full_output)
             try:
                 estimates(I, obj, x)
+            except NotAnOffset as exc:
+                rep.check(False, 'R-EVALSITES', 'core.%s._derivative' % cls, core_mod.relpath,
+                          {'point': str(exc)[:240], 'witness': exc.witness},
+                          'every evaluation of the whole call is at x or at a point admissible for the method', label, key='evalsite')
+                continue
             except AnalysisError as exc:
                 rep.undecided('R-EVALSITES', 'core.%s._derivative' % cls, exc, label)
                 continue
